@@ -317,7 +317,16 @@ def intercept(names=("get_cauchy_point", "subspace_minimization", "update_lbfgs_
                         entry = {"args": _deepcopy_args(a), "kwargs": dict(k)}
                     except Exception:
                         entry = None
-                out = orig(*a, **k)
+                if entry is not None and nm == "update_lbfgs_matrices":
+                    entry["X_before"] = [np.array(v, copy=True) for v in a[2]]
+                    entry["G_before"] = [np.array(v, copy=True) for v in a[3]]
+                try:
+                    out = orig(*a, **k)
+                except BaseException as e:  # noqa
+                    if entry is not None:
+                        entry["exc"] = e
+                        rec[nm].append(entry)
+                    raise
                 if entry is not None:
                     try:
                         entry["out"] = copy.deepcopy(out)
